@@ -95,6 +95,19 @@ async def _run_history(S, srv, history):
                 answers.append("EXC:" + type(e).__name__)
                 continue
             req = bytes([0x27, sf]) + key
+        elif item.startswith("seq:"):
+            # requests that must stay adjacent (a seed request left pending, then a request whose answer may look at the state);
+            # one answer string for the whole group, fresh seeds masked
+            parts = []
+            for h in item[4:].split("|"):
+                r = bytes.fromhex(h)
+                try:
+                    a, _t = await tr.handle_request(r)
+                    parts.append(mask_answer(r, a))
+                except Exception as e:
+                    parts.append("EXC:" + type(e).__name__)
+            answers.append("/".join(parts))
+            continue
         else:
             req = bytes.fromhex(item)
         try:
